@@ -171,57 +171,114 @@ Definition def_deps_ok (d : definition) : bool :=
   | _ => true
   end.
 
-Definition sdl_rules_okb (doc : document) : bool :=
+Definition dir_defs (ds : list definition) : list definition :=
+  filter (fun d => match d with DDirective _ _ _ _ _ => true | _ => false end) ds.
+
+(* names are unique, one schema definition *)
+Definition r_unique_types (doc : document) : bool :=
+  negb (has_dup (flat_map (fun d => match typedef_name d with Some n => [n] | None => [] end) (doc_defs doc))).
+Definition r_unique_directives (doc : document) : bool :=
+  negb (has_dup (flat_map (fun d => match directive_name d with Some n => [n] | None => [] end) (doc_defs doc))).
+Definition r_one_schema (doc : document) : bool :=
+  Nat.leb (length (filter (fun d => match d with DSchema false _ _ _ => true | _ => false end) (doc_defs doc))) 1.
+
+(* extensions extend a defined type of the same kind *)
+Definition r_ext_targets (doc : document) : bool :=
   let ds := doc_defs doc in
-  let K := declared_kinds doc in
-  let E := declared_env doc in
-  let sc := declared doc in
-  (* names are unique, one schema definition *)
-  negb (has_dup (flat_map (fun d => match typedef_name d with Some n => [n] | None => [] end) ds))
-  && negb (has_dup (flat_map (fun d => match directive_name d with Some n => [n] | None => [] end) ds))
-  && Nat.leb (length (filter (fun d => match d with DSchema false _ _ _ => true | _ => false end) ds)) 1
-  (* extensions extend a defined type of the same kind *)
-  && forallb (fun x => match typeext_name x with
-                       | None => true
-                       | Some n =>
-                           match find (fun d => match typedef_name d with
-                                                | Some m => str_eqb m n | None => false end) ds with
-                           | Some d => match def_kind d, def_kind x with
-                                       | Some a, Some b => kind_eqb a b
-                                       | _, _ => false
-                                       end
-                           | None => false
-                           end
-                       end) ds
-  (* members are unique after merging (fields, enum values, union members, interfaces, input fields) *)
-  && forallb (fun d => negb (has_dup (map (fun f => n_val (fd_name f)) (ext_fields d)))
-                       && negb (has_dup (map ty_name (ext_ifaces d)))
-                       && negb (has_dup (map ty_name (ext_members d)))
-                       && negb (has_dup (map (fun v => n_val (ev_name v)) (ext_values d)))
-                       && negb (has_dup (map (fun f => n_val (iv_name f)) (ext_ifields d))))
-             (declared_defs doc)
-  (* every reference resolves; argument / input field types are input types *)
-  && refs_known K (s_types sc)
-  && forallb (fun d => forallb (fun iv => tref_is_input K (tref_of (iv_type iv))) (def_ivalues d))
-             (declared_defs doc ++ filter (fun d => match d with DDirective _ _ _ _ _ => true | _ => false end) ds)
-  (* default values coerce at their declared type, @deprecated is well formed *)
-  && forallb (fun d => forallb (coercible E) (def_ivalues d) && def_deps_ok d)
-             (declared_defs doc ++ filter (fun d => match d with DDirective _ _ _ _ _ => true | _ => false end) ds)
-  (* root operation types: each operation at most once, known types *)
-  && forallb (fun k => Nat.leb (count_ops k (all_ops ds)) 1) [OpQuery; OpMutation; OpSubscription]
-  && forallb (fun ot => known K (ty_name (ot_type ot))) (all_ops ds)
-  (* without a schema definition the default names are the roots: an extension
-     cannot declare that operation again *)
-  && match schema_def_of ds with
-     | Some _ => true
-     | None => forallb (fun '(k, n) => match default_root (s_types sc) n with
-                                       | Some _ => Nat.eqb (count_ops k (all_ops ds)) 0
-                                       | None => true end)
-                       [(OpQuery, S_ "Query"); (OpMutation, S_ "Mutation"); (OpSubscription, S_ "Subscription")]
-     end
-  (* specified directives cannot be redefined *)
-  && negb (overrides_specified_directive (s_ddefs sc))
-  (* section 3 type validation of the declared schema *)
-  && validate_schema sc.
+  forallb (fun x => match typeext_name x with
+                    | None => true
+                    | Some n =>
+                        match find (fun d => match typedef_name d with
+                                             | Some m => str_eqb m n | None => false end) ds with
+                        | Some d => match def_kind d, def_kind x with
+                                    | Some a, Some b => kind_eqb a b
+                                    | _, _ => false
+                                    end
+                        | None => false
+                        end
+                    end) ds.
+
+(* members are unique after merging (fields, enum values, union members, interfaces, input fields) *)
+Definition r_unique_members (doc : document) : bool :=
+  forallb (fun d => negb (has_dup (map (fun f => n_val (fd_name f)) (ext_fields d)))
+                    && negb (has_dup (map ty_name (ext_ifaces d)))
+                    && negb (has_dup (map ty_name (ext_members d)))
+                    && negb (has_dup (map (fun v => n_val (ev_name v)) (ext_values d)))
+                    && negb (has_dup (map (fun f => n_val (iv_name f)) (ext_ifields d))))
+          (declared_defs doc).
+
+(* every reference resolves; argument / input field types are input types *)
+Definition r_refs (doc : document) : bool := refs_known (declared_kinds doc) (s_types (declared doc)).
+Definition r_input_types (doc : document) : bool :=
+  forallb (fun d => forallb (fun iv => tref_is_input (declared_kinds doc) (tref_of (iv_type iv))) (def_ivalues d))
+          (declared_defs doc ++ dir_defs (doc_defs doc)).
+
+(* default values coerce at their declared type, @deprecated is well formed *)
+Definition r_defaults (doc : document) : bool :=
+  forallb (fun d => forallb (coercible (declared_env doc)) (def_ivalues d) && def_deps_ok d)
+          (declared_defs doc ++ dir_defs (doc_defs doc)).
+
+(* root operation types: each operation at most once, known types; without a
+   schema definition the default names are the roots and an extension cannot
+   declare that operation again *)
+Definition r_ops_once (doc : document) : bool :=
+  forallb (fun k => Nat.leb (count_ops k (all_ops (doc_defs doc))) 1) [OpQuery; OpMutation; OpSubscription].
+Definition r_ops_known (doc : document) : bool :=
+  forallb (fun ot => known (declared_kinds doc) (ty_name (ot_type ot))) (all_ops (doc_defs doc)).
+Definition r_default_roots (doc : document) : bool :=
+  match schema_def_of (doc_defs doc) with
+  | Some _ => true
+  | None => forallb (fun '(k, n) => match default_root (s_types (declared doc)) n with
+                                    | Some _ => Nat.eqb (count_ops k (all_ops (doc_defs doc))) 0
+                                    | None => true end)
+                    [(OpQuery, S_ "Query"); (OpMutation, S_ "Mutation"); (OpSubscription, S_ "Subscription")]
+  end.
+
+(* specified directives cannot be redefined *)
+Definition r_no_override (doc : document) : bool :=
+  negb (overrides_specified_directive (s_ddefs (declared doc))).
+
+(* section 3 type validation of the declared schema *)
+Definition r_valid (doc : document) : bool := validate_schema (declared doc).
+
+Definition sdl_rules_okb (doc : document) : bool :=
+  r_unique_types doc && r_unique_directives doc && r_one_schema doc && r_ext_targets doc
+  && r_unique_members doc && r_refs doc && r_input_types doc && r_defaults doc
+  && r_ops_once doc && r_ops_known doc && r_default_roots doc && r_no_override doc && r_valid doc.
 
 Definition sdl_rules_ok (doc : document) : Prop := sdl_rules_okb doc = true.
+
+(* ------------------------------------------------------------------ *)
+(* the guard of C11_exact: exactly the complement of the two open findings.
+   At build time a default is coerced eagerly against the types as they are
+   *before* extensions are applied (the definitions of the document for
+   members of definitions, the built un-extended schema for members of
+   extensions).  The document is outside the findings when that gives, for
+   every default, what coercion at the declared type gives. *)
+Definition base_env (doc : document) : env := env_of [] (filter is_typedef (doc_defs doc)).
+
+Definition is_directive_def (d : definition) : bool :=
+  match d with DDirective _ _ _ _ _ => true | _ => false end.
+
+Definition base_ivalues (doc : document) : list input_value_def :=
+  flat_map def_ivalues (filter is_typedef (doc_defs doc) ++ filter is_directive_def (doc_defs doc)).
+
+Definition ext_ivalues (doc : document) : list input_value_def :=
+  flat_map def_ivalues (type_exts (doc_defs doc)).
+
+Definition decl_types (E : env) (tds : list definition) : list tdef :=
+  filter (fun t => negb (default_type_name (tdef_name t))) (flat_map (decl_type E) tds).
+
+(* the un-extended schema's types as the builder's second phase sees them *)
+Definition built_env (doc : document) : env :=
+  map (fun t => (tdef_name t, tinfo_of_tdef t))
+      (decl_types (declared_env doc) (filter is_typedef (doc_defs doc))).
+
+Definition stable_under (doc : document) (E : env) (iv : input_value_def) : Prop :=
+  forall v, iv_default iv = Some v ->
+    coerce build_fuel true E [] (tref_of (iv_type iv)) v
+    = coerce spec_fuel false (declared_env doc) [] (tref_of (iv_type iv)) v.
+
+Definition defaults_stable (doc : document) : Prop :=
+  (forall iv, In iv (base_ivalues doc) -> stable_under doc (base_env doc) iv)
+  /\ (forall iv, In iv (ext_ivalues doc) -> stable_under doc (built_env doc) iv).
